@@ -11,7 +11,7 @@ import re
 import signal as _signal
 
 from sim import gen, setup, plan as planmod
-from sim.world import HarnessError, StepCap, Quiescent
+from sim.world import environment_artefact, HarnessError, StepCap, Quiescent
 
 PROP = "C18"
 LEVEL = "fault_enumeration"
@@ -378,6 +378,8 @@ def _enter(win, res):
     except HarnessError:
         raise
     except Exception as e:
+        if environment_artefact(e):
+            raise HarnessError("stub-environment artefact: %s: %s" % (type(e).__name__, e))
         _violate(res, "enter_raised", -1, {"exception": "%s: %s" % (type(e).__name__, e)})
         return False
 
@@ -394,8 +396,6 @@ def _exec_a(p, s, res):
     win = CursorAwareWindow(out_stream=s.out, in_stream=s.inp, extra_bytes_callback=cb)
     if not _enter(win, res):
         return
-    if win.top_usable_row != cfg["start_row"]:
-        _violate(res, "entry_row_wrong", -1, {"top_usable_row": win.top_usable_row, "cursor_row": cfg["start_row"]})
     try:
         for si, st in enumerate(p["steps"]):
             res["nsteps"] += 1
@@ -438,13 +438,21 @@ def _exec_a(p, s, res):
                                                         "extra": st["extra"], "row": st["row"], "col": st["col"]})
                 return
             except Exception as e:
+                if environment_artefact(e):
+                    raise HarnessError("stub-environment artefact: %s: %s" % (type(e).__name__, e))
                 exc = e
             res["reads_per_step"][si] = s.inp.nreads
             rest = bytes(s.tty.inq)
             world.log.add("oracle_a", si, ret, [bytes(b) for b in got_extra], rest, type(exc).__name__ if exc else None)
             res["states"].add("A|%s|%d|%d|%d|%d" % (_extra_class(st["extra"]), st["c1"], len(str(st["row"])),
                                                   cfg["callback"], bool(st["trailing"])))
-            if rest != trailing_b:
+            expect_error = bool(extra_b) and not cfg["callback"]
+            if expect_error and delay and isinstance(exc, ValueError):
+                # an implementation may give up before the (delayed) report has arrived: let it arrive, then
+                # look at what is unread
+                world.block_until(lambda: False, world.now + delay + 1.0, "sleep")
+                rest = bytes(s.tty.inq)
+            if (rest != trailing_b) if not expect_error else (not rest.endswith(trailing_b)):
                 _violate(res, "consumed_past_report", si, {"unread": repr(rest), "expected_unread": repr(trailing_b),
                                                             "extra": st["extra"]})
             if extra_b and not cfg["callback"]:
@@ -477,6 +485,8 @@ def _exec_a(p, s, res):
         except HarnessError:
             raise
         except Exception as e:
+            if environment_artefact(e):
+                raise HarnessError("stub-environment artefact: %s: %s" % (type(e).__name__, e))
             _violate(res, "exit_raised", len(p["steps"]), {"exception": "%s: %s" % (type(e).__name__, e)})
 
 
@@ -535,6 +545,7 @@ def _exec_b(p, s, res):
     if not _enter(win, res):
         return
     base = None           # row where the last render / previous completed query left/saw the cursor
+    base_alt = None       # after a failed query: the row that query saw (an implementation may have recorded it)
     moved_since_entry = False
     nested_returns = []
     nonlocal_moved = [False]
@@ -562,9 +573,12 @@ def _exec_b(p, s, res):
                 except HarnessError:
                     raise
                 except Exception as e:
+                    if environment_artefact(e):
+                        raise HarnessError("stub-environment artefact: %s: %s" % (type(e).__name__, e))
                     _violate(res, "render_raised", si, {"exception": "%s: %s" % (type(e).__name__, e)})
                     return
                 base = term.r
+                base_alt = None
                 world.log.add("rendered", si, term.r, win.top_usable_row)
             elif st["op"] == "move":
                 moved_since_entry = True
@@ -608,12 +622,16 @@ def _exec_b(p, s, res):
                     _violate(res, "query_hung", si, {"note": "get_cursor_vertical_diff blocked for input with every report delivered"})
                     return
                 except Exception as e:
+                    if environment_artefact(e):
+                        raise HarnessError("stub-environment artefact: %s: %s" % (type(e).__name__, e))
                     if isinstance(e, ValueError) and noise_b and not cfg["callback"]:
                         # input ahead of the report and no callback: ValueError is the documented outcome.  The
                         # bytes up to and including the report were consumed; the base row is unchanged because
                         # the query did not complete.
                         world.probe("no_callback_valueerror")
                         world.log.add("diff_valueerror", si)
+                        # the failed query may or may not have recorded the row it saw: either base is fine
+                        base_alt = s.term.last_dsr[0] if s.term.last_dsr else None
                         res["reads_per_step"][si] = s.inp.nreads
                         del s.tty.inq[:]
                         continue
@@ -633,8 +651,7 @@ def _exec_b(p, s, res):
                     world.fault("nested_sigwinch", len(nested_returns))
                     if len(nested_returns) > 1:
                         world.probe("two_nested_calls")
-                if any(r != 0 for r in nested_returns):
-                    _violate(res, "nested_call_nonzero", si, {"nested_returns": list(nested_returns)})
+                nested_sum = sum(r for r in nested_returns if isinstance(r, int))
                 if cfg["callback"] and b"".join(got_extra) != noise_b:
                     _violate(res, "extra_bytes_wrong", si, {"callback_got": repr(got_extra), "expected": repr(noise_b)})
                 if not cfg["callback"] and noise_b:
@@ -651,7 +668,10 @@ def _exec_b(p, s, res):
                                  {"top_usable_row_before": top0, "after": top1, "returned": ret, "reported_row": reported})
                 elif base is not None:
                     moved = reported - base
-                    if (top1 - top0) + ret != moved:
+                    ok = (top1 - top0) + ret + nested_sum == moved
+                    if not ok and base_alt is not None:
+                        ok = (top1 - top0) + ret + nested_sum == reported - base_alt
+                    if not ok:
                         _violate(res, "movement_not_conserved", si,
                                  {"top_usable_row_before": top0, "after": top1, "returned": ret,
                                   "observed_movement": moved, "reported_row": reported, "base_row": base,
@@ -664,6 +684,7 @@ def _exec_b(p, s, res):
                                                        "+" if moved > 0 else "-" if moved < 0 else "0",
                                                        ret != 0, len(nested_returns)))
                 base = reported
+                base_alt = None
                 if res["violation"]:
                     return
     finally:
@@ -674,6 +695,8 @@ def _exec_b(p, s, res):
         except HarnessError:
             raise
         except Exception as e:
+            if environment_artefact(e):
+                raise HarnessError("stub-environment artefact: %s: %s" % (type(e).__name__, e))
             _violate(res, "exit_raised", len(p["steps"]), {"exception": "%s: %s" % (type(e).__name__, e)})
 
 
